@@ -8,6 +8,7 @@ from . import stoglib as SL
 
 ID = "C17"
 CHECKER = "chk_merge"
+THEOREMS = ['C17_stored_F_formula', 'C17_stored_F_readable', 'C17_stored_S_formula', 'C17_curves_consistent', 'C17_absent_keys_are_defaults', 'C17_nan_scrub_identity']
 RULE = ("every subset of the documented option keys (Merging, Merging.Y, .Y.Scale, .Y.Offset, Merging['Q[S(Q)-1]'], its Y, .Scale, .Offset) "
         "-- exhaustive -- x sampled scale/offset values x sampled merged data with Q>0; non-trivial = some option changes the curve; "
         "distinct by input hash")
